@@ -25,7 +25,8 @@ type Plan struct {
 	Crashes []Crash     `json:"crashes,omitempty"` // crash points
 	LN      []LNFault   `json:"ln,omitempty"`      // per-payment outcomes
 	Chain   []ChainEv   `json:"chain,omitempty"`   // scripted chain events
-	Adv     []AdvMove   `json:"adv,omitempty"`     // adversary script
+	Adv     []AdvMove   `json:"adv,omitempty"`     // adversary script (injections)
+	AdvCfg  *AdvCfg     `json:"adv_cfg,omitempty"` // the hostile counterparty's behaviour (when Scn.Kind[i]=="adv")
 	Silence []SilenceAt `json:"silence,omitempty"` // peer goes silent after its k-th message
 
 	// Heal phase (liveness properties): faults stop, chain advances, restarts happen.
